@@ -49,6 +49,7 @@ func runEngineI(p *Prog, o *obls) {
 		}
 		closureFn := c.Fn
 		setExt := setExtIn(c.Fn)
+		var helperCall *ssa.Call
 		var p2 []string
 		if len(setExt) == 0 {
 			// the per-packet work moved into a named helper the closure delegates to: analyse the helper, and require
@@ -68,6 +69,7 @@ func runEngineI(p *Prog, o *obls) {
 			}
 			setExt = setExtIn(helper)
 			hc := helperCalls[0]
+			helperCall = hc
 			bf, _ := pathCounts(closureFn, func(in ssa.Instruction) bool { return in == ssa.Instruction(hc) })
 			for _, b := range closureFn.Blocks {
 				if ret, ok := b.Instrs[len(b.Instrs)-1].(*ssa.Return); ok && b != closureFn.Recover && bf[ret]&4 != 0 {
@@ -283,6 +285,95 @@ func runEngineI(p *Prog, o *obls) {
 						p4 = append(p4, fmt.Sprintf("the downstream write at %s can be reached without the SetExtension: a packet written on the negotiated stream leaves without a transport-wide number", p.instrPos(w)))
 					}
 				})
+			}
+			if helperCall != nil && nW == 0 {
+				// helper form: allocation and SetExtension live in the helper, the downstream write in the closure.
+				// In the helper: a return reached from the allocation without a SetExtension, or reached with the
+				// SetExtension's error possibly non-nil, hands back a non-nil error (the error itself, or a value known
+				// non-nil there). In the closure: the downstream write runs only where the helper's error is nil.
+				h := c.Fn
+				errIdx := h.Signature.Results().Len() - 1
+				if errIdx < 0 || !isErrorType(h.Signature.Results().At(errIdx).Type()) {
+					p4 = append(p4, fmt.Sprintf("the numbering helper %s cannot report a failed SetExtension (no error result)", shortCallee(funcKey(h))))
+				} else {
+					for _, b := range h.Blocks {
+						ret, ok := b.Instrs[len(b.Instrs)-1].(*ssa.Return)
+						if !ok || b == h.Recover {
+							continue
+						}
+						rv := returnedValue(ret, errIdx)
+						nonNil := func() bool {
+							if cst, isC := rv.(*ssa.Const); isC {
+								return !cst.IsNil()
+							}
+							if u, isU := rv.(*ssa.UnOp); isU && u.Op == token.MUL {
+								if _, isG := u.X.(*ssa.Global); isG {
+									return true // a package-level error value (errHeaderIsNil)
+								}
+							}
+							if _, isMI := rv.(*ssa.MakeInterface); isMI {
+								return true // a freshly built error
+							}
+							if c2, isCall := rv.(*ssa.Call); isCall && c2.Call.StaticCallee() != nil && (c2.Call.StaticCallee().Name() == "Errorf" || c2.Call.StaticCallee().Name() == "New" || c2.Call.StaticCallee().Name() == "Join") {
+								return true
+							}
+							return p.nilnessAt(rv, b) == 1
+						}
+						for _, a := range allocs {
+							if a.Parent() == h && pathAvoiding(a, ret, isSet) && !nonNil() {
+								p4 = append(p4, fmt.Sprintf("the helper's return at %s can be reached from the allocation at %s without a SetExtension and does not fail: the number is consumed but leaves on no packet (a gap)", p.instrPos(ret), p.instrPos(a)))
+							}
+						}
+						for _, se := range setExt {
+							if se.Parent() != h || !canReach(se, ret) {
+								continue
+							}
+							var es ssa.Value = se
+							if p.nilnessAt(es, b) == -1 || nonNil() {
+								continue
+							}
+							carries := false
+							seen := map[ssa.Value]bool{}
+							var walk func(v ssa.Value)
+							walk = func(v ssa.Value) {
+								if seen[v] {
+									return
+								}
+								seen[v] = true
+								if v == es || p.origin(v) == es {
+									carries = true
+								}
+								if ph, ok := v.(*ssa.Phi); ok {
+									for _, e := range ph.Edges {
+										walk(e)
+									}
+								}
+							}
+							walk(rv)
+							if !carries {
+								p4 = append(p4, fmt.Sprintf("the error of the SetExtension at %s does not reach the helper's return at %s (a shadowed variable, a dropped result): when the header refuses the extension the helper reports success and the packet leaves without its number", p.instrPos(se), p.instrPos(ret)))
+							}
+						}
+					}
+					var he ssa.Value
+					if _, isTuple := helperCall.Type().(*types.Tuple); isTuple {
+						if fe := errExtract(helperCall); fe != nil {
+							he = fe
+						}
+					} else {
+						he = helperCall
+					}
+					instrsOf(closureFn, func(in ssa.Instruction) {
+						w, ok := in.(*ssa.Call)
+						if !ok || !isChainWrite(p, w) || !canReach(helperCall, w) {
+							return
+						}
+						nW++
+						if he == nil || p.nilnessAt(he, w.Block()) != -1 {
+							p4 = append(p4, fmt.Sprintf("the downstream write at %s runs although the numbering helper called at %s may have failed", p.instrPos(w), p.instrPos(helperCall)))
+						}
+					})
+				}
 			}
 			if len(p4) > 0 {
 				o.bad("I4", key, pos, strings.Join(dedupe(p4), "; "))
